@@ -18,7 +18,7 @@ import (
 
 func init() {
 	register(&Prop{
-		ID: "C08", Level: "exploration", Quick: 22000, Thorough: 137728 + 500000,
+		ID: "C08", Level: "exploration", Quick: 62000, Thorough: 137728 + 4000000,
 		Rule: "two trial families: (grid) bounded-exhaustive supplies 0..3 per bin x requested sizes 0..3 per bin or --size-total 0..12 x --no-fill (137728 combinations; thorough tier: all of them, quick tier: a seeded sample of 2000), each realised as an alignment with exactly that many candidate targets per bin at varying distances and pushed through the real pipeline; (generated) random references/queries/targets with shared SNPs, multiple hits and ambiguity tracts x every option combination (--size-*, --no-fill, --dist-*, --dist-push, --threshold-pair, --threshold-target, --ignore, --table) under seeded schedules with NumCPU in {1..16}; non-trivial = at least two bins non-empty for some query, or a threshold/ignore/limit excluded a target; distinct = distinct (inputs, options)",
 		Gen:   genC08,
 		Check: checkC08,
